@@ -8,7 +8,7 @@ import subprocess
 
 HERE = os.path.dirname(os.path.dirname(os.path.abspath(__file__)))
 # marker name -> (commit after which the round starts, last commit of the round or None for HEAD)
-ROUNDS = {"round4 fixes": ("00d3da0", "3fda9a8"), "round5 fixes": ("3fda9a8", None)}
+ROUNDS = {"round4 fixes": ("00d3da0", "3fda9a8"), "round5 fixes": ("3fda9a8", "a1b4b12"), "round8 fixes": ("a1b4b12", None)}
 
 
 def main():
@@ -25,7 +25,8 @@ def main():
                     wit = e["line"].split(e["commit"], 1)[1].strip()
                     rows.append("| %s | %s (%s) | %s |" % (e["rule"], wit.replace("|", "\\|"), e["property"], e["commit"]))
         table = "| rule | witness (property) | commit |\n|------|--------------------|--------|\n" + "\n".join(rows)
-        s = re.sub(r"(<!-- BEGIN %s -->\n).*?(\n<!-- END %s -->)" % (marker, marker), lambda m: m.group(1) + table + m.group(2), s, flags=re.S)
+        assert "<!-- BEGIN %s -->" % marker in s, marker
+        s = re.sub(r"(<!-- BEGIN %s -->\n).*?(<!-- END %s -->)" % (marker, marker), lambda m: m.group(1) + table + "\n" + m.group(2), s, flags=re.S)
         print("%s: %d rows" % (marker, len(rows)))
     open(p, "w").write(s)
 
